@@ -146,6 +146,10 @@ def run(chk: Check) -> None:
     run_bitmap_del(chk, ix)
     run_self_receiver(chk, ix)
     run_cast_failure(chk, ix)
+    run_init_facts_respect_leaks(chk, ix)
+    run_self_leak_stores(chk, ix)
+    run_slot_store_order(chk, ix)
+    run_glue_unbox_borrows(chk, ix)
     base = ix.cls(OP)
     ops = [c for c in base.all_subclasses() if c.module.name == "mypyc.ir.ops" and "sources" in c.methods and not any(isinstance(n, ast.Raise) for n in c.methods["sources"].node.body)]
     if len(ops) < 35:
@@ -869,3 +873,137 @@ def run_cast_failure(chk: Check, ix) -> None:
         r15.ok(key, vc.loc(), "the failing path of visit_cast / emit_cast_error_handler emits a release")
     else:
         r15.violation(key, vc.loc(), "Cast.stolen() hands src to the op, and neither visit_cast nor emit_cast_error_handler emits a dec-ref on the failing path: every cast that fails at run time leaks its operand")
+
+
+def run_init_facts_respect_leaks(chk: Check, ix) -> None:
+    """R06.16: conclusions drawn from the intra-procedural attribute facts stop where `self` has escaped."""
+    from ..cfg import branch_conditions
+    r16 = chk.rule("R06.16", "analysis/attrdefined.py: the attribute facts of __init__ (`maybe_defined`, `maybe_undefined`) are intra-procedural; once `self` has been handed to other code (the self-leak analysis `dirty`) that code may have assigned or read any attribute. Every function that draws a conclusion from the facts also takes the `dirty` result and reads it, and `SetAttr.mark_as_initializer()` (the store then overwrites the old value without releasing it) is reached only under a negated `dirty` test", floor=4)
+    mod = ix.module("mypyc.analysis.attrdefined")
+
+    def result_params(f, inner: str):
+        out = []
+        a = f.node.args
+        for p in a.posonlyargs + a.args + a.kwonlyargs:
+            if p.annotation is not None and norm(p.annotation) == f"AnalysisResult[{inner}]":
+                out.append(p.arg)
+        return out
+
+    def reads(f, name: str) -> bool:
+        return any(isinstance(s, ast.Subscript) and isinstance(s.value, ast.Attribute) and s.value.attr in ("before", "after") and isinstance(s.value.value, ast.Name) and s.value.value.id == name for s in ast.walk(f.node))
+
+    consumers = [f for f in mod.functions.values() if result_params(f, "str") and any(reads(f, p) for p in result_params(f, "str"))]
+    if len(consumers) < 3:
+        raise AnalysisError(f"attrdefined: {len(consumers)} consumers of AnalysisResult[str] facts found (expected find_always_defined_attributes, find_sometimes_defined_attributes, mark_attr_initialization_ops)")
+    for f in consumers:
+        key = f"{f.name}: the attribute facts are read together with the self-leak result"
+        dirty = result_params(f, "None")
+        if dirty and any(reads(f, d) for d in dirty):
+            r16.ok(key, f.loc())
+        else:
+            r16.violation(key, f.loc(), f"{f.name} reads {result_params(f, 'str')} but no self-leak result (an `AnalysisResult[None]` parameter read through .before/.after): its conclusion also covers program points after `self` escaped, where another function may have set the attribute already")
+    n = 0
+    for f in mod.functions.values():
+        par = f.module.parents()
+        for c in ast.walk(f.node):
+            if isinstance(c, ast.Call) and call_name(c) == "mark_as_initializer":
+                n += 1
+                st = c
+                while not isinstance(st, ast.stmt):
+                    st = par[st]
+                pos, neg = branch_conditions(par, f.node, st)
+                dirty = result_params(f, "None")
+                atoms = []
+                for t in pos:
+                    atoms += t.values if isinstance(t, ast.BoolOp) and isinstance(t.op, ast.And) else [t]
+                guarded = any(isinstance(t, ast.UnaryOp) and isinstance(t.op, ast.Not) and any(isinstance(x, ast.Name) and x.id in dirty for x in ast.walk(t.operand)) for t in atoms)
+                key = f"{f.name}: mark_as_initializer() only where self has not escaped"
+                if guarded:
+                    r16.ok(key, f.loc(c))
+                else:
+                    r16.violation(key, f.loc(c), f"the store is marked as an initializer under {[norm(t)[:70] for t in pos]} — no `not dirty...` test: after `self.reset()` / `f(self)` / an overridable hook the attribute may already hold a value, and the initializer store (`self->attr = v`, no release of the old value) leaks it")
+    if n < 1:
+        raise AnalysisError("attrdefined: no mark_as_initializer() site found")
+
+
+def run_self_leak_stores(chk: Check, ix) -> None:
+    """R06.17: an op that keeps one of its operands is judged by whether that operand is `self`."""
+    from ..cfg import branch_conditions
+    r17 = chk.rule("R06.17", "analysis/selfleaks.py: an IR op whose `stolen()` can be non-empty, or that is an assignment (BaseAssign: the destination register or register array becomes an alias), keeps an operand beyond the op (stores it in an attribute, a register array, memory, a tuple, or hands it to C code). If that operand is `self`, other code can reach the half-initialised object, so SelfLeakedVisitor's method for the op never returns CLEAN without a test that mentions `self_reg` (directly, by an earlier exit, or through check_register_op); attributes assigned after such a point are not `always defined` and their reads keep the NULL check", floor=12)
+    ops = ix.module("mypyc.ir.ops")
+    sl = ix.module("mypyc.analysis.selfleaks").classes.get("SelfLeakedVisitor")
+    if sl is None:
+        raise AnalysisError("selfleaks.SelfLeakedVisitor not found")
+    stealing = {}
+    for cname, c in ops.classes.items():
+        if cname == "Op" or "stolen" not in c.methods or "accept" not in c.methods:
+            continue
+        rets = [r for r in ast.walk(c.methods["stolen"].node) if isinstance(r, ast.Return) and r.value is not None]
+        is_assign = any(norm(b) == "BaseAssign" for b in c.node.bases)  # dest becomes an alias of the operand
+        if all(isinstance(r.value, ast.List) and not r.value.elts for r in rets) and not is_assign:
+            continue
+        vis = [call_name(x) for x in ast.walk(c.methods["accept"].node) if isinstance(x, ast.Call) and (call_name(x) or "").startswith("visit_")]
+        if len(vis) == 1:
+            stealing[cname] = vis[0]
+    if len(stealing) < 10:
+        raise AnalysisError(f"only {len(stealing)} op classes with a non-empty stolen() found in ir/ops.py")
+    for cname, vname in sorted(stealing.items()):
+        key = f"SelfLeakedVisitor.{vname}: {cname} keeps an operand, so CLEAN is returned only after looking for self"
+        f = sl.methods.get(vname)
+        if f is None:
+            r17.violation(key, f"mypyc/analysis/selfleaks.py:{sl.node.lineno}", f"no {vname} method")
+            continue
+        par = f.module.parents()
+        bad = None
+        for rt in ast.walk(f.node):
+            if isinstance(rt, ast.Return) and rt.value is not None and norm(rt.value) == "CLEAN":
+                pos, neg = branch_conditions(par, f.node, rt, early_exits=True)
+                if not any("self_reg" in norm(t) for t in list(pos) + list(neg)):
+                    bad = rt
+        if bad is None:
+            r17.ok(key, f.loc())
+        else:
+            r17.violation(key, f.loc(bad), f"`return CLEAN` is reached without any test on self_reg: when the operand {cname} keeps is `self` (e.g. `other.attr = self`, or `callback(self)` whose vectorcall argument array is filled by AssignMulti), the following code can read attributes __init__ has not assigned yet; they were inferred always-defined, so the read has no NULL check (segfault where CPython raises AttributeError)")
+
+
+def run_slot_store_order(chk: Check, ix) -> None:
+    """R06.18: replacing a container slot releases the old element after the new one is in place."""
+    from ..cfront import lib_rt_functions
+    r18 = chk.rule("R06.18", "lib-rt (clang AST): a function that stores into a slot of a container it was handed (PyList_SET_ITEM / PyTuple_SET_ITEM on a parameter) does not first release the slot's content in place (`Py_DECREF(list->ob_item[i])` before the store): releasing can run a finalizer that sees, and may free, the list while the slot still points to the dying object (double release, store through a stale ob_item). CPython's list_ass_item stores first and releases the saved old value afterwards", floor=3)
+    funcs, _ = lib_rt_functions(ix.root)
+    for name, e in sorted(funcs.items()):
+        evs = e.get("slot_events")
+        if not evs or not name.startswith("CPy"):
+            continue
+        params = set(e.get("param_names") or [])
+        stores = [x for x in evs if x["ev"] == "store" and x.get("container") in params]
+        if not stores:
+            continue
+        first_store = min(x["line"] or 0 for x in stores)
+        early = [x for x in evs if x["ev"] == "release_in_place" and (x["line"] or 0) < first_store]
+        key = f"{name}: the old element is released only after the store"
+        if not early:
+            r18.ok(key, f"mypyc/lib-rt:{name}:{first_store}")
+        else:
+            r18.violation(key, f"mypyc/lib-rt:{name}:{early[0]['line']}", f"line {early[0]['line']} releases the slot's content in place, line {first_store} stores the new element afterwards: `lst[i] = v` where the old item's __del__ clears or resizes the list frees the item twice / writes through a freed buffer (segfault; interpreted code prints the cleared list)")
+
+
+def run_glue_unbox_borrows(chk: Check, ix) -> None:
+    """R06.19: glue code that unboxes a Python object to call a native function borrows."""
+    r19 = chk.rule("R06.19", "codegen glue (emitwrapper.py argument parsing, emitclass.py attribute and property setters) unboxes an incoming PyObject* with Emitter.emit_unbox(..., borrow=True): the native function called next borrows its arguments and the glue never releases the unboxed value, so an owning unbox (a new reference for a big int, for tuple items) leaks one reference per call. Only FunctionEmitterVisitor.visit_unbox (the IR's own Unbox op, whose result the refcount pass owns) and emit_unbox's own recursion may unbox into an owned value", floor=4)
+    n = 0
+    for modname in ("mypyc.codegen.emitwrapper", "mypyc.codegen.emitclass"):
+        m = ix.module(modname)
+        for f in list(m.functions.values()) + [mm for c in m.classes.values() for mm in c.methods.values()]:
+            for c in ast.walk(f.node):
+                if isinstance(c, ast.Call) and call_name(c) == "emit_unbox":
+                    n += 1
+                    kw = {k.arg: k.value for k in c.keywords}
+                    key = f"{m.relpath}:{f.name}: emit_unbox(`{norm(c.args[0]) if c.args else '?'}` -> `{norm(c.args[1]) if len(c.args) > 1 else '?'}`) borrows"
+                    b = kw.get("borrow")
+                    if isinstance(b, ast.Constant) and b.value is True:
+                        r19.ok(key, f.loc(c))
+                    else:
+                        r19.violation(key, f.loc(c), "emit_unbox without borrow=True in glue code: the unboxed value is a new reference that nothing releases (e.g. `obj.prop = 2**100` through a property setter leaks the int; a tuple[object, int] leaks its item)")
+    if n < 4:
+        raise AnalysisError(f"only {n} emit_unbox sites found in emitwrapper.py / emitclass.py")
